@@ -53,3 +53,11 @@ Definition adaptF (src dst : vecG f32) : matF :=
 Definition adapt_xyyF (src dst : xyYG f32) : matF := adaptF (xyz32 src) (xyz32 dst).
 (* ChromaticAdaptation.Apply *)
 Definition applyF (m : matF) (c : vecG f32) : vecG f32 := fromV (mulVF m (toV c)).
+
+(* ---------- Color.ToXYZ / ColorFromXYZ: three float32 dot products ---------- *)
+Definition dot3_32 (a b c x y z : f32) : f32 := add32 (add32 (mul32 x a) (mul32 y b)) (mul32 z c).
+Definition mat32_apply (m : list f32) (x y z : f32) : list f32 :=
+  match m with
+  | [a0; a1; a2; b0; b1; b2; c0; c1; c2] => [dot3_32 a0 a1 a2 x y z; dot3_32 b0 b1 b2 x y z; dot3_32 c0 c1 c2 x y z]
+  | _ => []
+  end.
